@@ -516,7 +516,7 @@ func TestVerifC13Walk(t *testing.T) {
 	out := vOpen()
 	defer out.Close()
 	r := vNewRand(0xC13A)
-	total := vBudget(360, 12)
+	total := vBudget(300, 12)
 	reached := map[string]int{}
 	for i := 0; i < total; i++ {
 		g := &wGen{r: r, budget: 2 + r.Intn(10), fail: []int{0, 8, 20, 45}[r.Intn(4)], reached: reached}
@@ -593,7 +593,7 @@ func TestVerifC13Walk(t *testing.T) {
 		if (err == nil) != (len(g.exp) == 0) {
 			out.Oracle("walk-nil", term, fmt.Sprintf("Validate nil=%v but %d failing validators", err == nil, len(g.exp)))
 		}
-		out.Case(len(pes) > 0, "CWalk "+vBool(!g.multi)+" ("+term+") "+vList(obs))
+		out.Case(len(pes) > 0, "(CWalk "+vBool(!g.multi)+" ("+term+") "+vList(obs)+")")
 		out.Stat("walk.cases", 1)
 		out.Stat(fmt.Sprintf("walk.errors.%d", wMin(len(pes), 6)), 1)
 		if g.multi {
